@@ -13,7 +13,7 @@ from ..clidrv import ALL_YEARS_TOML
 from ..mcpdrv import Session, call, check_history
 from ..model import fx as fxm
 from ..probe import probe
-from ..util import cap_viols, rng_for, sha, fr, iso, d as pdate, round_half_away, tax_year_of
+from ..util import cap_viols, rng_for, sha, fr, dstr, iso, d as pdate, round_half_away, tax_year_of
 from . import ledger_core as lc
 from .c09 import to_json_text
 
@@ -52,8 +52,10 @@ def heavy_ledger(rng, lines=2500):
 def multi_year_ledger(rng, fx=False):
     """Disposals in several tax years (so year filters and explain targets differ for one ledger text)."""
     lo = rng.choice([2015, 2017, 2019, 2021])
-    opts = Opts(capital=False, splits=rng.random() < 0.3, n_sec=(1, 2), steps=(6, 12), long_gaps_p=0.6,
-                currencies=["USD", "EUR"] if fx else None,
+    # half of the pool ledgers carry capital returns / accumulations (they reach back into legs of earlier disposals:
+    # an answer computed from a truncated history would differ) and more 30-day shapes
+    opts = Opts(capital=rng.random() < 0.5, splits=rng.random() < 0.3, n_sec=(1, 2), steps=(6, 12), long_gaps_p=0.6,
+                templates_p=0.5, currencies=["USD", "EUR"] if fx else None,
                 start=(dt.date(lo, 1, 1), dt.date(lo + 1, 1, 1)), last_date=dt.date(2026, 3, 1))
     return gen_ledger(rng, opts)[0]
 
@@ -166,6 +168,14 @@ def gen_request(rng, rid, ctx):
     elif ctx["pool"] and rng.random() < 0.7:
         pooled = rng.choice(ctx["pool"])
         txs, fx = pooled["txs"], pooled["fx"]
+    elif rng.random() < 0.12:
+        # a non-empty ledger without a single trade: a year's dividends only (a tool that equates "no trades" with
+        # "no transactions" shows here)
+        fx = False
+        txs = [{"date": iso(dt.date(rng.choice([2019, 2022, 2024]), rng.randint(1, 12), rng.randint(1, 28))), "ticker": rng.choice(["VWRL", "ACME"]),
+                "kind": "DIVIDEND", "total": [dstr(Fraction(rng.randint(100, 99999), 100)), "GBP"],
+                "tax": [dstr(Fraction(rng.randint(0, 999), 100)), "GBP"]} for _ in range(rng.randint(1, 5))]
+        txs.sort(key=lambda t: t["date"])
     else:
         txs = small_ledger(rng, fx)
     heavy = txs is ctx["heavy"]
